@@ -604,7 +604,7 @@ pub enum Exact {
     Fail(String),
 }
 
-fn c11_once(alg: Algorithm, old: &[u8], new: &[u8], repair: bool) -> Result<(Out, u64), String> {
+fn c11_once(alg: Algorithm, old: &[u8], new: &[u8], repair: bool, exact: bool) -> Result<(Out, u64), String> {
     let (n, m) = (old.len(), new.len());
     let mut transitions = 0;
     let mut swaps = 0;
@@ -636,7 +636,7 @@ fn c11_once(alg: Algorithm, old: &[u8], new: &[u8], repair: bool) -> Result<(Out
             &mut swaps,
         )?;
         transitions += ops.len() as u64;
-        validate_ops(&ops, old, 0..n, new, 0..m, true)
+        validate_ops(&ops, old, 0..n, new, 0..m, exact)
             .map_err(|x| format!("{}: {} [ops: {:?}]", CAP_ENTRIES[e], x, ops))?;
         if first.is_none() {
             first = Some(ops);
@@ -650,7 +650,7 @@ fn c11_once(alg: Algorithm, old: &[u8], new: &[u8], repair: bool) -> Result<(Out
             &mut swaps,
         )?;
         transitions += ops.len() as u64;
-        validate_ops(&ops, &fo, po..po + n, &fnw, pn..pn + m, true).map_err(|x| {
+        validate_ops(&ops, &fo, po..po + n, &fnw, pn..pn + m, exact).map_err(|x| {
             format!(
                 "capture_diff on sub-ranges old {:?} new {:?} of old={:?} new={:?}: {} [ops: {:?}]",
                 po..po + n,
@@ -677,12 +677,20 @@ fn c11_once(alg: Algorithm, old: &[u8], new: &[u8], repair: bool) -> Result<(Out
 }
 
 pub fn c11_pair(alg: Algorithm, old: &[u8], new: &[u8]) -> Exact {
-    match c11_once(alg, old, new, false) {
+    match c11_once(alg, old, new, false, true) {
         Ok((o, _)) => Exact::Ok(o),
-        Err(e) => match c11_once(alg, old, new, true) {
-            Ok((_, swaps)) if swaps > 0 => Exact::Kf1(e),
-            _ => Exact::Fail(e),
-        },
+        Err(e) => {
+            // KF1 only ever leaves *carried* indices stale (Delete.new_index, Insert.old_index).
+            // A failing case whose ops are not even a valid script (consuming ranges wrong) is a
+            // different defect, whatever the repair switch does to it.
+            if let Err(e2) = c11_once(alg, old, new, false, false) {
+                return Exact::Fail(format!("{} [not a carried-index problem: {}]", e, e2));
+            }
+            match c11_once(alg, old, new, true, true) {
+                Ok((_, swaps)) if swaps > 0 => Exact::Kf1(e),
+                _ => Exact::Fail(e),
+            }
+        }
     }
 }
 
